@@ -18,7 +18,7 @@ from ..corpus import (
     unparse,
     walk_local,
 )
-from ..flow import ENTRY, EXIT, get_cfg
+from ..flow import ENTRY, EXIT, facts as branch_facts, get_cfg
 from ..mutant import Mutant
 from ..report import Report
 from .common import find_node, rule
@@ -44,8 +44,9 @@ META = {
         "current_node store, also not in the directly called renderer methods; current_node_context saves current_node before its yield and restores the saved "
         "name on every normal path after it (plain or try/finally); the rubric's level= and the level passed to the level-state update are the same signed sum "
         "of terms (reaching definitions, through helper parameters and augmented assignments); the rubric is attached to current_node exactly once on every path. "
-        "R3 (update_section_level_state): parent = max over the open levels strictly below the new level; the section is attached exactly once on every path to "
-        "map[parent]; no use of the level parameter is reached by a definition that replaces it by another linear quantity; the map operations (map[level]=section, "
+        "R3 (update_section_level_state): every definition of the parent level that can reach the parent lookup is either max over the open levels strictly below "
+        "the new level (deeper levels are still open at that point: a filter such as != or <= is a violation) or the shortcut level - 1 used only where that level "
+        "is known to be open; the section is attached exactly once on every path to map[parent]; no use of the level parameter is reached by a definition that replaces it by another linear quantity; the map operations (map[level]=section, "
         "filtering dict comprehension, removal loops over a key range or over a copy of the keys) are simulated over the key classes {<L, =L, >L} and must leave "
         "(ancestors kept, own level = new section, deeper levels dropped) - range bounds are level+c, constants or max(open levels)+c, and a constant bound only "
         "covers the deeper levels if the heading level is statically bounded, which it is not once the heading offset is added; the MD_HEADING_NON_CONSECUTIVE "
@@ -54,17 +55,23 @@ META = {
         "is therefore a violation); the map starts as {0: document} (in setup_render or a helper only it calls); every other change of the map during a render "
         "must restore a value read from it in the same function or be bracketed by its own save(copy)/restore. "
         "R4: the context manager around _render_tokens in nested_render_text saves _heading_offset, md_env[temp_root_node] and (by copy) _level_to_section before "
-        "the yield and restores each to its saved name under the same guard (plain, try/finally, or += / -= inverse update); every other change of the offset or "
+        "the yield and restores each to its saved name under the same guard (plain, try/finally, several branches that cover every path, or += / -= inverse update); a "
+        "restore under a strictly stronger condition than the change is a violation when the extra test is on a nested_render_text parameter whose default falsifies "
+        "it and some caller relies on that default; every other change of the offset or "
         "the temp root during a render must be such a pair itself; a non-None temp_root_node is passed only as `<node> if <flag> else None` where <flag> is traced "
         "to the match_titles parameter of a docutils-state nested_parse and <node> is the argument of the enclosing current_node_context - any other caller "
         "passing a temp root is a violation; the include mock passes the heading-offset option; the level registered by the section path is exactly tag digit + "
-        "heading offset (thorough: markdown-it pushes heading_open with 'h'+str(level))."
+        "heading offset, the tag digit being int() of tag[1] / tag[1:] / tag.lstrip('h') / tag.removeprefix('h'); a level derived from token.markup is decided against "
+        "the parsed markdown-it sources (every heading_open producer must set markup to exactly <level> characters - the setext rule does not, so it is a violation) "
+        "(thorough: markdown-it pushes heading_open with 'h'+str(level))."
     ),
     "not_decided": (
         "the resulting nesting for all level sequences as a computed value; what the inline renderers reached through render_children do; third-party directives "
         "that nested-parse into a nodes.section container; where sections created under a match_titles temp root are attached (to the outer open section selected "
         "from the level map, not to that node - by design of the code, listed as evidence); that the heading offset is replaced, not accumulated, by nested renders; "
-        "warning conditions that differ only outside the grid (parent > 8, skip > 12); extra warning conditions on configuration values (answered ANALYSIS-ERROR)"
+        "warning conditions that differ only outside the grid (parent > 8, skip > 12); extra warning conditions on configuration values (answered ANALYSIS-ERROR); "
+        "save/restore conditions that differ in spelling only, e.g. `if x:` vs `if x is not None:` (answered ANALYSIS-ERROR); a level - 1 shortcut that reaches the "
+        "parent lookup without a membership test (KeyError territory, answered ANALYSIS-ERROR)"
     ),
     "trusted_base": [
         "CPython ast",
@@ -626,6 +633,8 @@ class HeadingCode:
                 sgn = 1 if isinstance(d.op, ast.Add) else -1
                 return sorted(self.terms(d.target, f, d, depth + 1) + [(sgn * s_, t) for s_, t in self.terms(d.value, f, d, depth + 1)])
             raise Unsupported(f"definition `{short(d, 40)}` of `{e.id}` not understood")
+        if _markup_derived(e):
+            return [(1, "MARKUP:" + unparse(e))]
         return [(1, unparse(e))]
 
 
@@ -633,7 +642,7 @@ def terms_text(ts: list[tuple[int, str]]) -> str:
     names = {"TAG": "int(token.tag[1])", "OFFSET": "self._heading_offset"}
     out = ""
     for sgn, t in ts:
-        out += (" + " if sgn > 0 else " - ") + names.get(t, t)
+        out += (" + " if sgn > 0 else " - ") + names.get(t, t.removeprefix("MARKUP:"))
     return out[3:] if out.startswith(" + ") else out.strip()
 
 
@@ -1127,10 +1136,23 @@ def _map_keys_iter(it: ast.expr) -> str | None:
 
 
 def _is_tag_digit(e: ast.AST) -> bool:
-    return (
-        isinstance(e, ast.Call) and dotted(e.func) == "int" and len(e.args) == 1 and isinstance(e.args[0], ast.Subscript)
-        and is_attr(e.args[0].value, "tag") and isinstance(e.args[0].slice, ast.Constant) and e.args[0].slice.value == 1
-    )
+    """int() of the digit part of the heading tag: tag[1], tag[1:], tag.lstrip("h"), tag.removeprefix("h")."""
+    if not (isinstance(e, ast.Call) and dotted(e.func) == "int" and len(e.args) == 1 and not e.keywords):
+        return False
+    x = e.args[0]
+    if isinstance(x, ast.Subscript) and is_attr(x.value, "tag"):
+        sl = x.slice
+        if isinstance(sl, ast.Constant) and sl.value == 1:
+            return True
+        if isinstance(sl, ast.Slice) and isinstance(sl.lower, ast.Constant) and sl.lower.value == 1 and sl.upper is None and sl.step is None:
+            return True
+    if isinstance(x, ast.Call) and isinstance(x.func, ast.Attribute) and x.func.attr in ("lstrip", "removeprefix") and is_attr(x.func.value, "tag"):
+        return len(x.args) == 1 and isinstance(x.args[0], ast.Constant) and x.args[0].value == "h"
+    return False
+
+
+def _markup_derived(e: ast.AST) -> bool:
+    return any(isinstance(n, ast.Attribute) and n.attr == "markup" for n in ast.walk(e))
 
 
 def _level_bound(corpus: Corpus) -> int | None:
@@ -1364,17 +1386,17 @@ def r3_ordering_roles(corpus: Corpus, rep: Report, tier: str):
         raise Unsupported("section argument of the level-state update is not traced to the nodes.section constructed for this heading")
     if name_assignments(upd, p_sec):
         raise Unsupported(f"parameter `{p_sec}` of {UPDATE} is rebound: its role is no longer fixed")
-    # (a) parent selection
-    sel = [
+    # (a) parent selection: every definition of the parent level that can reach its use is judged
+    sels = [
         n
         for n in upd.local_nodes()
         if isinstance(n, ast.Assign) and len(n.targets) == 1 and isinstance(n.targets[0], ast.Name) and isinstance(n.value, ast.Call) and dotted(n.value.func) in ("max", "min")
         and n.value.args and isinstance(n.value.args[0], (ast.GeneratorExp, ast.ListComp, ast.SetComp))
+        and len(n.value.args[0].generators) == 1 and _map_keys_iter(n.value.args[0].generators[0].iter) == "keys"
     ]
-    if len(sel) != 1:
-        raise Unsupported(f"parent level selection: expected one `x = max(<comprehension over the level map>)`, found {len(sel)}")
-    sel = sel[0]
-    par = sel.targets[0].id
+    if not sels or len({n.targets[0].id for n in sels}) != 1:
+        raise Unsupported(f"parent level selection: expected `x = max(<comprehension over the level map>)`, found {len(sels)} candidate(s)")
+    par = sels[0].targets[0].id
     budget = [200]
 
     def _resolve_local(name: str):
@@ -1384,27 +1406,75 @@ def r3_ordering_roles(corpus: Corpus, rep: Report, tier: str):
         return single_def(upd, name)
 
     LIN_LOCALS = _resolve_local
-    if len(name_assignments(upd, par)) != 1:
-        raise Unsupported(f"`{par}` is bound more than once")
-    comp = sel.value.args[0]
-    k = f"{upd.fq}|parent level selection"
-    site = base.site(sel)
-    if len(comp.generators) != 1 or _map_keys_iter(comp.generators[0].iter) != "keys" or not isinstance(comp.generators[0].target, ast.Name):
-        raise Unsupported("parent selection does not iterate the keys of the level map")
-    kv = comp.generators[0].target.id
-    if not (isinstance(comp.elt, ast.Name) and comp.elt.id == kv):
-        raise Unsupported("parent selection does not select a key of the level map")
-    ifs = comp.generators[0].ifs
-    rel = key_rel(ifs[0], kv, p_lvl) if len(ifs) == 1 else None
-    if len(ifs) != 1 or rel is None:
-        raise Unsupported("parent selection filter is not one comparison of the open level with the new level")
-    agg = dotted(sel.value.func)
-    if agg != "max":
-        rep.violation("C05.R3", k, site, f"the parent level is the {agg} of the open lower levels: the heading is attached to the outermost, not the closest preceding open heading of lower level")
-    elif rel is not ast.Lt:
-        rep.violation("C05.R3", k, site, f"open levels are filtered with `open {REL_TXT[rel]} new`: the parent must be strictly lower (`<`), otherwise a heading becomes the child of its own sibling / of a deeper heading")
-    else:
-        rep.ok("C05.R3", k, site, "max over open levels strictly below the new level")
+    par_defs = name_assignments(upd, par)
+    for d in par_defs:
+        multi = len(par_defs) > 1
+        if d in sels:
+            comp = d.value.args[0]
+            k = f"{upd.fq}|parent level selection" + (f"|{short(d.value, 60)}" if multi else "")
+            site = base.site(d)
+            if not isinstance(comp.generators[0].target, ast.Name):
+                raise Unsupported("parent selection does not iterate the keys of the level map")
+            kv = comp.generators[0].target.id
+            if not (isinstance(comp.elt, ast.Name) and comp.elt.id == kv):
+                raise Unsupported("parent selection does not select a key of the level map")
+            ifs = comp.generators[0].ifs
+            rel = key_rel(ifs[0], kv, p_lvl) if len(ifs) == 1 else None
+            if len(ifs) != 1 or rel is None:
+                raise Unsupported("parent selection filter is not one comparison of the open level with the new level")
+            agg = dotted(d.value.func)
+            if agg != "max":
+                rep.violation("C05.R3", k, site, f"the parent level is the {agg} of the open lower levels: the heading is attached to the outermost, not the closest preceding open heading of lower level")
+            elif rel is not ast.Lt:
+                rep.violation(
+                    "C05.R3",
+                    k,
+                    site,
+                    f"open levels are filtered with `open {REL_TXT[rel]} new`: the parent must be strictly lower (`<`), otherwise a heading becomes the child of its own sibling / of a deeper heading "
+                    "(deeper levels are still open when the parent is selected: they are pruned afterwards)",
+                )
+            else:
+                rep.ok("C05.R3", k, site, "max over open levels strictly below the new level")
+            continue
+        # a shortcut `parent = level - 1`: only sound for c == -1 and only where that level is known to be open
+        if not (isinstance(d, ast.Assign) and len(d.targets) == 1 and isinstance(d.targets[0], ast.Name)):
+            raise Unsupported(f"definition `{short(d, 50)}` of the parent level is not understood")
+        form = lin(d.value, p_lvl, "\0")
+        if form is None or form[0] != 1 or form[1] != 0:
+            raise Unsupported(f"definition `{short(d, 50)}` of the parent level is neither max(<open levels below>) nor level - 1")
+        k = f"{upd.fq}|parent level shortcut|{short(d, 50)}"
+        dst = cfg.stmt_of(d)
+        uses = [cfg.stmt_of(n) for n in upd.local_nodes() if isinstance(n, ast.Subscript) and is_attr(n.value, LEVEL_MAP) and isinstance(n.slice, ast.Name) and n.slice.id == par and isinstance(n.ctx, ast.Load)]
+        others = {cfg.stmt_of(x) for x in par_defs if x is not d}
+        reaching_uses = [u for u in uses if cfg.paths_avoiding(dst, u, lambda n: n in others)]
+        if not reaching_uses:
+            rep.ok("C05.R3", k, base.site(d), "never reaches the parent lookup")
+            continue
+        if form[2] != -1:
+            rep.violation("C05.R3", k, base.site(d), f"the parent level is taken as `{unparse(d.value)}`: only level - 1 can be the closest open lower level without looking at the map")
+            continue
+
+        def is_member_edge(n) -> bool:
+            """Branch edge on which `<par or level-1> in level map` is known to hold."""
+            if not (isinstance(n, tuple) and n[0] in ("T", "F") and isinstance(n[1], ast.If)):
+                return False
+            for t, pol in branch_facts(n[1].test, n[0] == "T"):
+                if isinstance(t, ast.Compare) and len(t.ops) == 1 and isinstance(t.ops[0], (ast.In, ast.NotIn)) and _map_keys_iter(t.comparators[0]) == "keys":
+                    lhs = t.left
+                    same = (isinstance(lhs, ast.Name) and lhs.id == par) or lin(lhs, p_lvl, "\0") == (1, 0, -1)
+                    if same and (isinstance(t.ops[0], ast.In)) == pol:
+                        return True
+            return False
+
+        guarded_def = any(is_member_edge(g_) for g_ in cfg.dom().get(dst, set()))
+        ok_all = True
+        for u in reaching_uses:
+            if not guarded_def and cfg.paths_avoiding(dst, u, lambda n: n in others or is_member_edge(n)):
+                ok_all = False
+        if ok_all:
+            rep.ok("C05.R3", k, base.site(d), "level - 1, used only where that level is known to be open (then it is the maximum open level below)")
+        else:
+            raise Unsupported(f"`{short(d, 40)}` reaches the parent lookup on a path where level - 1 is not known to be open (KeyError or wrong parent): not decided here")
 
     # (a') the heading level keeps its role: no use of `level` is reached by a definition that replaces it by another quantity
     for d in name_assignments(upd, p_lvl):
@@ -1777,6 +1847,36 @@ def _is_match_titles_flag(corpus: Corpus, fi: FunctionInfo, name: str, depth: in
     return True
 
 
+def _falsified_by_default(corpus: Corpus, fn: FunctionInfo, extra: list[tuple[ast.expr, bool]]) -> str | None:
+    """If some extra fact tests a parameter of ``fn`` (``p``, ``p is None``, ``p is not None``) whose constant default makes it
+    false, and a caller leaves that parameter to its default: a sentence naming parameter and caller."""
+    a = fn.node.args
+    pos = a.posonlyargs + a.args
+    defaults: dict[str, ast.expr] = {}
+    for arg, dv in zip(pos[len(pos) - len(a.defaults):], a.defaults):
+        defaults[arg.arg] = dv
+    for arg, dv in zip(a.kwonlyargs, a.kw_defaults):
+        if dv is not None:
+            defaults[arg.arg] = dv
+    for t, pol in extra:
+        pname, holds = None, None
+        if isinstance(t, ast.Name) and t.id in defaults and isinstance(defaults[t.id], ast.Constant):
+            pname, holds = t.id, bool(defaults[t.id].value) == pol
+        elif isinstance(t, ast.Compare) and len(t.ops) == 1 and isinstance(t.ops[0], (ast.Is, ast.IsNot)) and isinstance(t.left, ast.Name) and t.left.id in defaults and isinstance(t.comparators[0], ast.Constant) and t.comparators[0].value is None and isinstance(defaults[t.left.id], ast.Constant):
+            pname = t.left.id
+            is_none = defaults[pname].value is None
+            holds = (is_none if isinstance(t.ops[0], ast.Is) else not is_none) == pol
+        if pname is None or holds or name_assignments(fn, pname):
+            continue
+        idx = fn.params.index(pname) - (1 if fn.params and fn.params[0] == "self" else 0)
+        for cf, call in _callers_by_name(corpus, fn.name):
+            if any(isinstance(x, ast.Starred) for x in call.args) or any(kw.arg is None for kw in call.keywords):
+                continue
+            if kwarg(call, pname) is None and len(call.args) <= idx:
+                return f"`{pname}` defaults to {unparse(defaults[pname])} and {cf.qualname} ({cf.module.site(call)}) does not pass it"
+    return None
+
+
 @rule("C05.R4")
 def r4_save_restore(corpus: Corpus, rep: Report, tier: str):
     rep.rule("C05.R4", "nested renders save and restore heading offset / level map (by copy) / temp root under one guard; temp root only for match_titles; include passes heading-offset; level = tag digit + offset")
@@ -1911,8 +2011,31 @@ def r4_save_restore(corpus: Corpus, rep: Report, tier: str):
         if len(rs) != len(good):
             rep.violation("C05.R4", k, base.site(rs[0][0]), f"{CELL_TXT[cell]} is also assigned something other than `{name}` after the yield")
             continue
-        if _guard_set(cfg, good[0]) != gref:
-            rep.error("C05.R4", f"{base.site(good[0])}: {CELL_TXT[cell]} is restored under {sorted(_guard_set(cfg, good[0]))} but changed under {sorted(gref)}: conditions not comparable by this rule")
+        gres = _guard_set(cfg, good[0])
+        if not gref and not cfg.paths_avoiding(yst, EXIT, lambda n: n in good):
+            gres = gref  # changed unconditionally and restored on every normal path after the yield (possibly in several branches)
+        elif len(good) > 1:
+            rep.error("C05.R4", f"{base.site(good[0])}: {CELL_TXT[cell]} is restored in {len(good)} places that do not cover every path after the yield: not comparable by this rule")
+            continue
+        if gres != gref:
+            # restored under a strictly stronger condition than it is changed: decidable when the extra facts test a parameter
+            # whose default falsifies them and some caller relies on that default
+            extra = [(t, pol) for t, pol in cfg.guards(good[0]) if (unparse(t), pol) not in gref]
+            witness = None
+            if gref < gres:
+                witness = _falsified_by_default(corpus, nrt, extra)
+            if witness:
+                rep.violation(
+                    "C05.R4",
+                    k,
+                    base.site(good[0]),
+                    f"{CELL_TXT[cell]} is changed before every nested render"
+                    + (f" with {' and '.join(sorted(t for t, _ in gref))}" if gref else "")
+                    + f" but only restored when {' and '.join(('' if pol else 'not ') + unparse(t) for t, pol in extra)}; {witness}: "
+                    + ("after such a nested render (include, directive body, div, substitution) the heading offset of the enclosing include is lost and its remaining headings get the wrong level" if cell == "offset" else "after such a nested render the enclosing section state is not put back"),
+                )
+            else:
+                rep.error("C05.R4", f"{base.site(good[0])}: {CELL_TXT[cell]} is restored under {sorted(gres)} but changed under {sorted(gref)}: conditions not comparable by this rule")
             continue
         rep.ok("C05.R4", k, base.site(good[0]), f"saved as `{name}`" + (" (copy)" if cell == "map" else "") + f", restored under {sorted(t for t, _ in gref) or 'no condition'}")
 
@@ -2019,6 +2142,21 @@ def r4_save_restore(corpus: Corpus, rep: Report, tier: str):
         rep.violation("C05.R4", k, lsite, f"the heading level is `{terms_text(lts)}`: the include's heading offset must be added to the tag level")
     elif lts == [(1, "TAG")]:
         rep.violation("C05.R4", k, lsite, "the heading level ignores the heading offset: headings of an include with :heading-offset: are not shifted")
+    elif any(t.startswith("MARKUP:") for _s, t in lts):
+        mterm = [t for _s, t in lts if t.startswith("MARKUP:")][0][len("MARKUP:"):]
+        bad_producers = _markup_not_level_length(corpus)
+        if bad_producers:
+            rep.violation(
+                "C05.R4",
+                k,
+                lsite,
+                f"the heading level is derived from the token's markup (`{mterm}`) instead of its tag: {'; '.join(bad_producers)} - for such a heading (setext: text underlined with === / ---) "
+                "the markup does not encode the level (the tag 'h'+level does), so its level and therefore its place in the section tree is wrong",
+            )
+        elif mterm.startswith("len(") and sorted(t for _s, t in lts if not t.startswith("MARKUP:")) == ["OFFSET"]:
+            rep.ok("C05.R4", k, lsite, f"{terms_text(lts)}: every heading_open producer sets markup to exactly <level> characters")
+        else:
+            raise Unsupported(f"heading level `{terms_text(lts)}` derived from token.markup in a way this rule cannot relate to the level")
     else:
         raise Unsupported(f"heading level `{terms_text(lts)}` is not int(token.tag[1]) + self.{OFFSET}")
     # every other change of the offset / temp root during a render must be its own save/restore pair
@@ -2030,40 +2168,90 @@ def r4_save_restore(corpus: Corpus, rep: Report, tier: str):
     rep.expect_min("C05.R4", 8, "wrapping, three cells, temp-root caller, include offset, level derivation, other callers")
 
 
+def _heading_open_sites(corpus: Corpus) -> list[tuple[str, object, ast.Call]]:
+    """(relative file, parsed module, call) for every place markdown-it / mdit-py-plugins create a heading_open token."""
+
+    def scan():
+        out = []
+        for sp in site_packages():
+            for pkg in ("markdown_it", "mdit_py_plugins"):
+                root = sp / pkg
+                if not root.is_dir():
+                    continue
+                for path in sorted(root.rglob("*.py")):
+                    try:
+                        text = path.read_text(encoding="utf8")
+                    except OSError:
+                        continue
+                    if '"heading_open"' not in text and "'heading_open'" not in text:
+                        continue
+                    rel = str(path.relative_to(sp))
+                    m = corpus.sibling(rel)
+                    for c in ast.walk(m.tree):
+                        if isinstance(c, ast.Call) and ((isinstance(c.func, ast.Attribute) and c.func.attr in ("push", "Token")) or dotted(c.func) == "Token"):
+                            if c.args and isinstance(c.args[0], ast.Constant) and c.args[0].value == "heading_open":
+                                out.append((rel, m, c))
+            if out:
+                break
+        return out
+
+    return corpus.cache("c05-heading-open-sites", scan)
+
+
+def _markup_not_level_length(corpus: Corpus) -> list[str]:
+    """Producers of heading_open whose ``token.markup`` is not a string of exactly <level> characters."""
+    bad = []
+    sites = _heading_open_sites(corpus)
+    if len(sites) < 2:
+        raise Unsupported("heading_open producers not found in the markdown-it sources")
+    for rel, m, c in sites:
+        asg = parent(c)
+        if not (isinstance(asg, ast.Assign) and len(asg.targets) == 1 and isinstance(asg.targets[0], ast.Name)):
+            raise Unsupported(f"{rel}:{c.lineno}: heading_open token not bound to a name")
+        tok = asg.targets[0].id
+        tag = c.args[1] if len(c.args) > 1 else None
+        lvl_names = {n.id for n in ast.walk(tag) if isinstance(n, ast.Name)} if tag is not None else set()
+        blk = None
+        pp = parent(asg)
+        for fld in ("body", "orelse", "finalbody"):
+            if asg in getattr(pp, fld, []):
+                blk = getattr(pp, fld)
+        if blk is None:
+            raise Unsupported(f"{rel}:{c.lineno}: heading_open push not in a statement block")
+        mk = None
+        for st in blk[blk.index(asg) + 1 :]:
+            if isinstance(st, ast.Assign) and any(isinstance(t, ast.Name) and t.id == tok for t in st.targets):
+                break
+            if isinstance(st, ast.Assign) and len(st.targets) == 1 and isinstance(st.targets[0], ast.Attribute) and st.targets[0].attr == "markup" and isinstance(st.targets[0].value, ast.Name) and st.targets[0].value.id == tok:
+                mk = st
+        if mk is None:
+            bad.append(f"{rel}:{c.lineno} (markup left empty)")
+            continue
+        v = mk.value
+        level_len = (
+            isinstance(v, ast.Subscript) and isinstance(v.value, ast.Constant) and isinstance(v.value.value, str) and len(set(v.value.value)) == 1 and len(v.value.value) >= 6
+            and isinstance(v.slice, ast.Slice) and v.slice.lower is None and v.slice.step is None and isinstance(v.slice.upper, ast.Name) and v.slice.upper.id in lvl_names
+        )
+        if not level_len:
+            bad.append(f"{rel}:{mk.lineno} sets markup = {unparse(v)}")
+    return bad
+
+
 def _heading_tag_shape(corpus: Corpus, rep: Report) -> None:
     """Sibling cross-check: every heading_open token is pushed with tag "h" + str(level)."""
-    n = 0
-    for sp in site_packages():
-        for pkg in ("markdown_it", "mdit_py_plugins"):
-            root = sp / pkg
-            if not root.is_dir():
-                continue
-            for path in sorted(root.rglob("*.py")):
-                try:
-                    text = path.read_text(encoding="utf8")
-                except OSError:
-                    continue
-                if '"heading_open"' not in text and "'heading_open'" not in text:
-                    continue
-                rel = str(path.relative_to(sp))
-                m = corpus.sibling(rel)
-                rep.saw_sibling(rel)
-                for c in ast.walk(m.tree):
-                    if isinstance(c, ast.Call) and isinstance(c.func, ast.Attribute) and c.func.attr in ("push", "Token") or (isinstance(c, ast.Call) and dotted(c.func) == "Token"):
-                        if c.args and isinstance(c.args[0], ast.Constant) and c.args[0].value == "heading_open":
-                            n += 1
-                            tag = c.args[1] if len(c.args) > 1 else None
-                            k = f"sibling {rel}|heading_open tag"
-                            okk = isinstance(tag, ast.BinOp) and isinstance(tag.op, ast.Add) and isinstance(tag.left, ast.Constant) and tag.left.value == "h" and isinstance(tag.right, ast.Call) and dotted(tag.right.func) == "str"
-                            okk = okk or (isinstance(tag, ast.JoinedStr) and unparse(tag).startswith(("f'h{", 'f"h{')))
-                            if okk:
-                                rep.ok("C05.R4", k, f"{rel}:{c.lineno}", f"tag = {unparse(tag)}")
-                            else:
-                                rep.error("C05.R4", f"{rel}:{c.lineno}: heading_open pushed with tag `{short(tag, 40) if tag is not None else '?'}`; int(token.tag[1]) assumes 'h'+digit")
-        if n:
-            break
-    if n < 2:
-        rep.error("C05.R4", f"expected the ATX and setext heading rules of markdown-it to push heading_open, found {n} site(s)")
+    sites = _heading_open_sites(corpus)
+    for rel, _m, c in sites:
+        rep.saw_sibling(rel)
+        tag = c.args[1] if len(c.args) > 1 else None
+        k = f"sibling {rel}|heading_open tag"
+        okk = isinstance(tag, ast.BinOp) and isinstance(tag.op, ast.Add) and isinstance(tag.left, ast.Constant) and tag.left.value == "h" and isinstance(tag.right, ast.Call) and dotted(tag.right.func) == "str"
+        okk = okk or (isinstance(tag, ast.JoinedStr) and unparse(tag).startswith(("f'h{", 'f"h{')))
+        if okk:
+            rep.ok("C05.R4", k, f"{rel}:{c.lineno}", f"tag = {unparse(tag)}")
+        else:
+            rep.error("C05.R4", f"{rel}:{c.lineno}: heading_open pushed with tag `{short(tag, 40) if tag is not None else '?'}`; int(token.tag[1]) assumes 'h'+digit")
+    if len(sites) < 2:
+        rep.error("C05.R4", f"expected the ATX and setext heading rules of markdown-it to push heading_open, found {len(sites)} site(s)")
 
 
 RULES = [r1_context_guard, r2_rubric_path_purity, r3_ordering_roles, r4_save_restore]
@@ -2261,6 +2449,36 @@ def mutants(corpus: Corpus):
                           expect="rubric level="))
     else:
         out.append(("c05-offset-added-after-rubric-branch", "level definition / section construction not found in render_heading"))
+    # class: state restored under a stricter condition than it is changed
+    if cm is not None:
+        post_stmts, seen_y = [], False
+        for st_ in cm.node.body:
+            if isinstance(st_, ast.Expr) and isinstance(st_.value, ast.Yield):
+                seen_y = True
+            elif seen_y:
+                post_stmts.append(st_)
+        off_restore = next((x for x in post_stmts if isinstance(x, ast.Assign) and is_self_attr(x.targets[0], OFFSET)), None)
+        root_if = next((x for x in post_stmts if isinstance(x, ast.If) and "temp_root_node" in unparse(x.test)), None)
+        if off_restore is not None and root_if is not None and root_if.lineno > off_restore.lineno:
+            ind2 = " " * root_if.body[0].col_offset
+            moved = splice(base.src, root_if.body[0], seg(base, off_restore) + f"\n{ind2}" + seg(base, root_if.body[0]))
+            out.append(Mutant("c05-offset-restored-only-with-temp-root", "C05.R4", base.rel, splice(moved, off_restore, "pass"), expect="only restored when"))
+        else:
+            out.append(("c05-offset-restored-only-with-temp-root", "post-yield layout of the context manager not as expected"))
+        if off_restore is not None:
+            ind1 = " " * off_restore.col_offset
+            add("c05-offset-restored-only-if-offset-given", "C05.R4", base, off_restore, f"if heading_offset:\n{ind1}    " + seg(base, off_restore), expect="only restored when")
+    # class: heading level read from a token field that does not encode the level for every heading producer
+    tagd = find_node(rh, _is_tag_digit)
+    add("c05-level-from-markup-length", "C05.R4", base, tagd, "len(token.markup)", expect="derived from the token's markup")
+    add("c05-level-from-markup-count", "C05.R4", base, tagd, 'token.markup.count("#")', expect="derived from the token's markup")
+    # class: parent selection with a shortcut and a fallback that is not 'max over the open levels strictly below'
+    sel_stmt = find_node(upd, lambda n: isinstance(n, ast.Assign) and isinstance(n.value, ast.Call) and dotted(n.value.func) == "max")
+    if sel_stmt is not None:
+        pn, lv_, ind = sel_stmt.targets[0].id, upd.params[2], " " * sel_stmt.col_offset
+        for mid, cond in (("c05-parent-fallback-any-other-open-level", f"k != {lv_}"), ("c05-parent-fallback-includes-own-level", f"k <= {lv_}")):
+            add(mid, "C05.R3", base, sel_stmt,
+                f"{pn} = {lv_} - 1\n{ind}if {pn} not in self.{LEVEL_MAP}:\n{ind}    {pn} = max(k for k in self.{LEVEL_MAP} if {cond})", expect="parent level selection")
     lvl = find_node(rh, lambda n: isinstance(n, ast.BinOp) and isinstance(n.op, ast.Add) and (is_self_attr(n.right, OFFSET) or is_self_attr(n.left, OFFSET)))
     if lvl is not None:
         add("c05-offset-subtracted", "C05.R4", base, lvl, f"{seg(base, lvl.left)} - {seg(base, lvl.right)}", expect="level = tag digit")
